@@ -149,7 +149,9 @@ def norm {α : Type} (c : Nat → Tree α) : Nat → Tree α :=
 /-- `InternalNode::new(children…)` + the `batch.put_node(child_key, child)` of every listed child. -/
 def mkInternal {α : Type} (H : List UInt8 → Hash) (version : Nat) (pfx lp : Path)
     (newCs : List (Nat × Tree α)) (oldC : Nat → Tree α) : Tree α × List (NodeKey × SNode) :=
-  let c := norm (childFn newCs oldC)
+  -- (`norm (childFn newCs oldC)`, written so that the compiled code tabulates once, here)
+  let tab := (List.range 16).map (childFn newCs oldC)
+  let c := ofTable tab
   (.node version (internalHash H c) c,
    newCs.map fun (n, t) => ((version, pfx ++ lp ++ [n]), summ H (lp.length + 1) t))
 
@@ -231,6 +233,28 @@ def withExistingLeaf {α : Type} (H : List UInt8 → Hash) (version : Nat) (pfx 
     | [kv] => if kv.key = ek then .ok (single version kv) else general
     | _ => general
 
+/-- The tail of `batch_insert_at` on an internal node: `old_children` (`oldC`: the old children minus
+those whose subtree became empty) and `new_created_children` (`newCs`) are merged; an internal node
+left with no child disappears, one left with a single *leaf* child is replaced by that leaf (which is
+then re-put by the parent), anything else is rebuilt under the new version. -/
+def collapse {α : Type} (H : List UInt8 → Hash) (version : Nat) (pfx lp : Path)
+    (newCs : List (Nat × Tree α)) (oldC : Nat → Tree α) (b : Batch) : R α :=
+  let oldIdx := (List.range 16).filter fun i => !(oldC i).isNull
+  let rebuild : R α :=
+    let (nd, puts) := mkInternal H version pfx lp newCs oldC
+    ⟨some nd, b ++ { puts := puts }⟩
+  match newCs, oldIdx with
+  | [], [] => ⟨none, b⟩
+  | [(nn, nt)], [on] => if on = nn && nt.isLeaf then ⟨some nt, b⟩ else rebuild
+  | [(_, nt)], [] => if nt.isLeaf then ⟨some nt, b⟩ else rebuild
+  | [], [on] =>
+    if (oldC on).isLeaf then
+      -- the only remaining child is a leaf: it is read, marked stale and returned upwards
+      ⟨some ((oldC on).setVer version),
+       b ++ { stale := [((oldC on).ver, pfx ++ lp ++ [on])] }⟩
+    else rebuild
+  | _, _ => rebuild
+
 /-- `batch_insert_at` on a non-`Null` node (`Null` exists at depth 0 only, see `putTier`). -/
 def insertAt {α : Type} (H : List UInt8 → Hash) (version : Nat) (pfx : Path) (fuel : Nat) :
     Tree α → Path → List (KV α) → Except Err (R α)
@@ -252,22 +276,6 @@ def insertAt {α : Type} (H : List UInt8 → Hash) (version : Nat) (pfx : Path) 
         let b : Batch := ({ stale := [(v, pfx ++ lp)] } : Batch) ++ b0
         let removed := fun i => rs.any fun r => r.1 == i && r.2.isNone
         let oldC : Nat → Tree α := fun i => if removed i then .null else c i
-        let newCs := someChildren rs
-        let oldIdx := (List.range 16).filter fun i => !(oldC i).isNull
-        let rebuild : R α :=
-          let (nd, puts) := mkInternal H version pfx lp newCs oldC
-          ⟨some nd, b ++ { puts := puts }⟩
-        .ok <|
-          match newCs, oldIdx with
-          | [], [] => ⟨none, b⟩
-          | [(nn, nt)], [on] => if on = nn && nt.isLeaf then ⟨some nt, b⟩ else rebuild
-          | [(_, nt)], [] => if nt.isLeaf then ⟨some nt, b⟩ else rebuild
-          | [], [on] =>
-            if (oldC on).isLeaf then
-              -- the only remaining child is a leaf: it is read, marked stale and returned upwards
-              ⟨some ((oldC on).setVer version),
-               b ++ { stale := [((oldC on).ver, pfx ++ lp ++ [on])] }⟩
-            else rebuild
-          | _, _ => rebuild
+        .ok (collapse H version pfx lp (someChildren rs) oldC b)
 
 end Radix.Jmt
